@@ -24,6 +24,7 @@ def main(tier, seed):
     # whole-run traces of `inspect` (Osaca.tla): the summary numbers are the numbers the graph stage computed
     from harness import osaca_run
     osaca_run.whole_runs(run, "C05", tier, seed)
+    osaca_run.api_reuse(run, "C05", tier, seed)
     for c in cases:
         if "error" not in c and len(c["lcd"]) >= 2 and any(len(x[1]) >= 2 for x in c["lcd"]):
             run.mark(c.get("text", "") + "|" + c["id"].split(":")[2])
